@@ -388,9 +388,82 @@ def undeclare_mix(ctx, order, reordering):
     M.op('decref', u)
 
 
+def full_table(ctx, n, limit_extra):
+    """a call that fails because `max_nodes` is reached (`RuntimeError`): implementation and
+    oracle only -- the model has an unbounded supply of node numbers, so this stream is not
+    part of the correspondence.  Held references keep their functions, counts stay exact,
+    `_min_free` stays the least free number, and work continues once the limit is raised."""
+    import dd.bdd as _ddb
+    rng = ctx.rng
+    b = _ddb.BDD()
+    names = [vname(i) for i in range(n)]
+    b.declare(*names)
+    held = {}
+    for _ in range(2):
+        t = rng.getrandbits(1 << n)
+        u = b.false
+        for k in range(1 << n):
+            if (t >> k) & 1:
+                u = b.apply('or', u, b.cube({names[j]: bool(T.getbit(k, j, n)) for j in range(n)}))
+        if abs(u) != 1:
+            b.incref(u)
+            held[u] = held.get(u, 0) + 1
+    tts = {u: oracle.tt_fast(b, u, names) for u in held}
+    b.collect_garbage()
+    b.max_nodes = len(b) + limit_extra
+    case = dict(stream=f'full table n={n} extra={limit_extra}', max_nodes=b.max_nodes,
+                held={str(u): hex(t) for u, t in tts.items()})
+    failed = False
+    for _ in range(12):
+        t = rng.getrandbits(1 << n)
+        try:
+            u = b.false
+            for k in range(1 << n):
+                if (t >> k) & 1:
+                    u = b.apply('or', u, b.cube({names[j]: bool(T.getbit(k, j, n)) for j in range(n)}))
+        except RuntimeError:
+            failed = True
+            break
+    ctx.case(('full-table', n, limit_extra, failed), True)
+    ctx.count('full-table' + (':reached' if failed else ''))
+    ext = {1: 1}
+    for u, c in held.items():
+        ext[abs(u)] = ext.get(abs(u), 0) + c
+    bad = oracle.check_table(b, external=ext)
+    if bad:
+        ctx.violation('C17:full-table', f'after RuntimeError(full) the manager is inconsistent: {bad[:3]}', case)
+    for u, t in tts.items():
+        if oracle.tt_fast(b, u, names) != t:
+            ctx.violation('C17:reference-changed', f'held reference {u} changed after RuntimeError(full)', case)
+    b.max_nodes = 10 ** 9
+    try:
+        b.collect_garbage()
+        t = rng.getrandbits(1 << n)
+        u = b.false
+        for k in range(1 << n):
+            if (t >> k) & 1:
+                u = b.apply('or', u, b.cube({names[j]: bool(T.getbit(k, j, n)) for j in range(n)}))
+        if oracle.tt_fast(b, u, names) != t:
+            ctx.violation('C17:later-call', 'a function built after the limit was raised is wrong', case)
+        if oracle.check_table(b, external=ext):
+            ctx.violation('C17:full-table', 'inconsistent after later work', case)
+        for u, c in held.items():
+            for _ in range(c):
+                b.decref(u)
+        b.collect_garbage()
+    except Exception as e:  # noqa: B902
+        ctx.violation('C17:later-call', f'work after RuntimeError(full) raised {type(e).__name__}', case)
+    # (the shutdown assertion of dd wants zero counts)
+    b._succ = {1: b._succ[1]}
+    b._ref = {1: 0}
+
+
 def run(ctx):
     q = ctx.quick
     rng = ctx.rng
+    for n in (2, 3, 4):
+        for extra in ((1, 3) if q else (1, 2, 3, 5, 8, 13)):
+            full_table(ctx, n, extra)
     for n in (2, 3, 4):
         for kind in ('undeclared', 'syntax'):
             for _ in range(2 if q else 12):
@@ -403,3 +476,8 @@ def run(ctx):
                 json_faults(ctx, rng.choice([2, 3]), receiver, fault)
     for i in range(24 if q else 300):
         history(ctx, rng.choice([2, 3, 3, 4]), 40 if q else 80, reordering=(i % 3 == 2))
+    # rejected calls of the multi-valued manager (dd.mdd), injected into its histories
+    from . import C15
+    for lens in ([2], [3], [2, 2], [3, 2]):
+        for _ in range(2 if q else 10):
+            C15.mdd_ops(ctx, lens, 40 if q else 100, P='C17', rejected=0.25)
